@@ -54,6 +54,17 @@ for n in (3, 4):
 extra.append(job("c09.lloyd", secs=300, n=5, k=2, d=1, metric=L1, tolshift=1))
 extra.append(job("c09.lloyd", secs=300, n=3, k=2, d=1, metric=L1))                  # tolerance 2^-40: the "converged" flip is hard for z3
 
+# ---- one / two iterations on large data sets (one or two symbolic rows among 520-1100 fixed ones): code paths
+#      selected by the number of samples.  "inexact": the interval bound of sums over hundreds of rounded terms
+#      exceeds 2^53 although the values do not; such terms are classed as rounded and the obligation has a tolerance
+for metric in (NS1, NS2):
+    quick.append(job("c09.lloyd_wide", secs=60, allow=("inexact",), n=600, k=2, d=1, sym=1, metric=metric))
+    quick.append(job("c09.lloyd_wide", secs=60, allow=("inexact",), n=600, k=2, d=1, sym=1, m=2, metric=metric))
+    quick.append(job("c09.lloyd_wide", secs=90, allow=("inexact",), n=1100, k=3, d=2, sym=1, metric=metric))
+quick.append(job("c09.lloyd_wide", secs=60, allow=("inexact",), n=520, k=2, d=1, sym=2, metric=L1, tolshift=-9))
+extra.append(job("c09.lloyd_wide", secs=600, jobs=4, allow=("inexact",), n=520, k=2, d=1, sym=2, csym=1, B=16, metric=NS1))
+extra.append(job("c09.lloyd_wide", secs=300, allow=("inexact",), n=2100, k=4, d=2, sym=1, m=2, metric=NS2))
+
 # ---- cost monotonicity (squared Euclidean cost).  The solver (z3 4.8.12, mixed Int/Real non-linear) decides the
 #      plain statement only for the smallest shapes; for k=2, n=3 the statement is also submitted together with the
 #      two steps of the textbook argument (lemmas=2: steps => statement; lemmas=4: step `which` or statement).
